@@ -103,6 +103,18 @@ CHECKS = {
              "modelling) is listed in evidence. SQLite/WAL and signal-driven flush are outside. One defect repaired.",
         ref="DESIGN.md 4 C13",
     ),
+    "C19": dict(
+        text="Bounded model checking of the bytecode cache on the real codecache.py: the validity decision over real-valued source and "
+             "cache modification times (z3 decides the comparison for all reals, so sub-second cases are included), run/edit-or-touch/run "
+             "histories under all 16 switch settings with the edit time a symbolic offset from the cache write, -c code entries for "
+             "equal/different code strings, every truncation length of a real cache entry and every single-bit flip in its version header "
+             "and first payload bytes (neither may raise nor yield anything but the complete code object), and the cache-file renaming "
+             "composed with an independently written decoder (left inverse => different scripts never share an entry).",
+        note="Files, stat and open are in-memory with explicit mtimes; compile_code is replaced by a real compile() of a program that "
+             "records which source ran; marshal stays real (each corruption case is concrete at the C boundary). md5 collisions, imphooks "
+             "and bit flips deep in the marshal payload are outside. One defect repaired.",
+        ref="DESIGN.md 4 C19",
+    ),
 }
 
 NA = {
